@@ -547,6 +547,49 @@ func allCases(thorough bool, c codec) []testCase {
 			add(fmt.Sprintf("%s with x=leaf%d", h.desc, i), "host", h.build)
 		}
 	}
+	// (5b) memo identifiers across the 1-byte / 4-byte back-reference boundary: N distinct
+	// memoised containers followed by a second reference to the k-th one
+	if c.batch == 1000 {
+		ns := []int{250, 257, 300}
+		if thorough {
+			ns = []int{250, 257, 300, 65600}
+		}
+		for _, n := range ns {
+			ks := []int{0, 1, 127, 128, 253, 254, 255, 256, 257, 258, n - 1}
+			if n > 65536 {
+				ks = append(ks, 65533, 65534, 65535, 65536, 65537)
+			}
+			for _, k := range ks {
+				if k >= n {
+					continue
+				}
+				for _, kind := range []string{"list", "dict"} {
+					n, k, kind := n, k, kind
+					add(fmt.Sprintf("%d memoised %ss then a second reference to #%d", n, kind, k), "memo-id-width", func() starlark.Value {
+						outer := starlark.NewList(nil)
+						var kth starlark.Value
+						for i := 0; i < n; i++ {
+							var el starlark.Value
+							if kind == "list" {
+								el = starlark.NewList([]starlark.Value{starlark.MakeInt(i)})
+							} else {
+								d := starlark.NewDict(1)
+								d.SetKey(starlark.String("i"), starlark.MakeInt(i))
+								el = d
+							}
+							if i == k {
+								kth = el
+							}
+							outer.Append(el)
+						}
+						outer.Append(kth)
+						outer.Append(outer) // and one to the outermost container (memo id 0)
+						return outer
+					})
+				}
+			}
+		}
+	}
 	// (6) aliasing graphs: three mutable containers with two reference slots each
 	kinds := [][3]string{{"list", "list", "list"}, {"dict", "list", "list"}, {"list", "dict", "dict"}, {"dict", "dict", "dict"}, {"list", "list", "host"}}
 	if !thorough {
